@@ -278,6 +278,7 @@ class Scenario:
                     from nasdaq_protocols import soup
                     try:
                         await s.login(soup.LoginRequest('u', 'p', 's', '1'))
+                        result['t_login_ok'] = asyncio.get_running_loop().time()
                         r = 'ok'
                     except Exception as e:   # noqa
                         # soup.connect_async maps EndOfQueue to ConnectionRefusedError
@@ -347,6 +348,14 @@ class Scenario:
                         if users[u].done():
                             continue
                     ext(['cancel', u], users[u].cancel)
+                elif k == 'at_trip':
+                    # sleep until the instant of the remote monitor's second tick after login returned (its timers and ours
+                    # then fire in the same loop iteration burst), so that what follows interleaves with a heartbeat-timeout close
+                    t_ok = result.get('t_login_ok')
+                    if t_ok is not None:
+                        d = t_ok + 2 * self.hb[1] - asyncio.get_running_loop().time()
+                        if d > 0:
+                            await asyncio.sleep(d)
                 elif k == 'turns':
                     for _ in range(item[1]):
                         await asyncio.sleep(0)
